@@ -187,13 +187,15 @@ class PKESessionKeyV3(PKESessionKey):
         self.encrypter = bytearray(8)
         self.pkalg = 0
         self.ct = None
+        # algorithm-specific part of a packet for an algorithm without a field parser, kept as it came
+        self._opaque_ct = bytearray()
 
     def __bytearray__(self):
         _bytes = bytearray()
         _bytes += super(PKESessionKeyV3, self).__bytearray__()
         _bytes += binascii.unhexlify(self.encrypter.encode())
         _bytes += bytearray([self.pkalg])
-        _bytes += self.ct.__bytearray__() if self.ct is not None else b'\x00' * (self.header.length - 10)
+        _bytes += self.ct.__bytearray__() if self.ct is not None else self._opaque_ct
         return _bytes
 
     def __copy__(self):
@@ -203,6 +205,7 @@ class PKESessionKeyV3(PKESessionKey):
         sk.pkalg = self.pkalg
         if self.ct is not None:
             sk.ct = copy.copy(self.ct)
+        sk._opaque_ct = bytearray(self._opaque_ct)
 
         return sk
 
@@ -281,7 +284,9 @@ class PKESessionKeyV3(PKESessionKey):
             self.ct.parse(packet)
 
         else:  # pragma: no cover
-            del packet[:(self.header.length - 18)]
+            # version, key id and algorithm octet (10 octets) have been read
+            self._opaque_ct = bytearray(packet[:(self.header.length - 10)])
+            del packet[:(self.header.length - 10)]
 
 
 class Signature(VersionedPacket):
